@@ -75,8 +75,20 @@ TRUE = atom(True)
 FALSE = atom(False)
 
 
+_qf_ax_cache = {}
+
+
 def axioms(qf_only=False):
     """Background theory, regenerated at query time so that it covers every atom created so far."""
+    k = (len(_atom_order), qf_only)
+    if k not in _qf_ax_cache:
+        if len(_qf_ax_cache) > 4:
+            _qf_ax_cache.clear()
+        _qf_ax_cache[k] = _axioms(qf_only)
+    return _qf_ax_cache[k]
+
+
+def _axioms(qf_only=False):
     ax = []
     consts = [_atoms[k][0] for k in _atom_order]
     if len(consts) > 1:
@@ -202,6 +214,27 @@ def check_sat(hyps, timeout_ms=2000, seed=0):
     SOLVER_STATS['feas_queries'] += 1
     SOLVER_STATS['feas_s'] += time.time() - t
     return str(r)
+
+
+def check_branch(hyps, cond, timeout_ms=2000, seed=0):
+    """(feasible(hyps + cond), feasible(hyps + not cond)) with one solver"""
+    t = time.time()
+    s = _mk_solver(timeout_ms, seed)
+    for a in axioms(qf_only=True):
+        s.add(a)
+    s.add(*[h for h in hyps if not is_quantified(h)])
+    res = []
+    for c in (cond, z3.Not(cond)):
+        if is_quantified(c):
+            res.append(True)
+            continue
+        s.push()
+        s.add(c)
+        res.append(s.check() != z3.unsat)
+        s.pop()
+    SOLVER_STATS['feas_queries'] += 2
+    SOLVER_STATS['feas_s'] += time.time() - t
+    return res
 
 
 def run_cvc5(smt2, timeout_s):
